@@ -136,7 +136,9 @@ func c20Pass(r *core.Run) {
 		for _, fam := range parserFamiliesFor(in.Family, in.Aux) {
 			for _, p := range adapt.ByFamily(fam) {
 				var res adapt.Parsed
-				r.Begin(worker, func() string { return p.Name + " (and the methods of the value it returns) input=" + core.Hex(in.Bytes) })
+				r.Begin(worker, func() string {
+					return p.Name + " (and the methods of the value it returns) input=" + core.Hex(in.Bytes)
+				})
 				if pan, _ := core.Guard(func() { res = p.Fn(in.Bytes) }); pan {
 					r.End(worker)
 					continue
